@@ -16,6 +16,7 @@ import (
 	"github.com/ipld/go-ipld-prime/traversal"
 	sb "github.com/ipld/go-ipld-prime/traversal/selector/builder"
 
+	"strings"
 	"verif/harness/core"
 	"verif/harness/gen"
 	"verif/harness/model"
@@ -509,7 +510,65 @@ func c05Concurrent(r *core.Run) {
 	noteDegraded(r)
 }
 
+// c05DeclaredShort: roots whose FileSize is not the sum of their BlockSizes
+// (hand-written, two bytes short: FileSize is a hint, the content is the
+// concatenation of the leaves). Positioning inside the file goes by the block
+// sizes, which are right, so every range that ends inside the declared size is
+// served from exactly the blocks it intersects. (End-relative operations go by
+// the declared size and are not judged here.)
+func c05DeclaredShort(r *core.Run) {
+	n := 0
+	for _, h := range gen.HandLiars() {
+		if h.Lie != "filesize-under" || h.LeafKind != "pbfile" || strings.Contains(h.Label, "empty") {
+			continue
+		}
+		s := store.New()
+		root, content := h.Build(s)
+		tree, err := model.FileTree(s, root)
+		if err != nil {
+			r.InternalError("model: " + err.Error())
+			continue
+		}
+		ls := lsFor(s)
+		rn, err := loadRoot(ls, root)
+		if err != nil {
+			continue
+		}
+		declared := int64(len(content)) - 2
+		for a := int64(0); a < declared; a++ {
+			for b := a + 1; b <= declared; b++ {
+				nd, err := openVia("unixfs", ls, rn)
+				if err != nil {
+					r.Violate("reify-error declared-short", h.Label+": "+err.Error(), nil)
+					return
+				}
+				lb, ok := nd.(datamodel.LargeBytesNode)
+				if !ok {
+					continue
+				}
+				rs, _ := lb.AsLargeBytes()
+				s.ResetLogs()
+				buf := make([]byte, b-a)
+				_, serr := rs.Seek(a, io.SeekStart)
+				_, rerr := io.ReadFull(rs, buf)
+				n++
+				if serr != nil || rerr != nil || !bytes.Equal(buf, content[a:b]) {
+					r.Violate("range-bytes declared-short", fmt.Sprintf("%s [%d,%d): seek err=%v read err=%v got %x want %x", h.Label, a, b, serr, rerr, buf, content[a:b]), c05Case{Kind: "hand", Hand: h.Label})
+					continue
+				}
+				if xr := extraReads(s.Reads(), tree.Needed(a, b)); len(xr) > 0 {
+					r.Violate("over-fetch declared-short", fmt.Sprintf("%s [%d,%d): requested %s; not needed: %s", h.Label, a, b, shortList(s.Reads()), shortList(xr)), c05Case{Kind: "hand", Hand: h.Label})
+				}
+			}
+		}
+	}
+	r.Evaluations.Add(int64(n))
+	r.Transitions.Add(int64(n))
+	r.Set("declared_short_ranges", n)
+}
+
 func runC05(r *core.Run) {
+	c05DeclaredShort(r)
 	if overlayActive {
 		c05Concurrent(r)
 	} else {
